@@ -6,6 +6,7 @@ import ast
 
 from sa.classes import init_fields, init_param_of_field, fields_of, prop_field_map, self_name, method_fields
 from sa.report import AnalysisError
+from sa.scans import scan
 from sa.srcmodel import unparse, walk_no_nested, calls_in, dotted
 
 MOD = 'pharmpy.model.statements'
@@ -134,42 +135,34 @@ def run(chk, repo, tier):
             continue
         for loop in [n for n in walk_no_nested(f.node) if isinstance(n, ast.For)]:
             it = loop.iter
-            rngs = [c_ for c_ in ast.walk(it) if isinstance(c_, ast.Call) and dotted(c_.func) == 'range']
-            rev = [c_ for c_ in ast.walk(it) if isinstance(c_, ast.Call) and dotted(c_.func) == 'reversed']
-            if not rngs and not rev:
+            if not any(isinstance(c_, ast.Call) and dotted(c_.func) in ('range', 'reversed') for c_ in ast.walk(it)):
                 continue
-            for r in rngs:
-                args = r.args
-                desc = len(args) == 3 and unparse(args[2]) == '-1'
-                chk.instance(D2, f'{meth}: for ... in {unparse(r)} (descending={desc})')
-                if desc:
-                    if unparse(args[1]) != '-1':
-                        chk.violation(D2, rel, f.qualname, unparse(r),
-                                      'a backward scan over statement indices stops before index 0', line=r.lineno,
-                                      witness='a statement list whose first statement defines the symbol: it is not '
-                                              'found / not linked, so its dependencies are missing from the answer')
-                    # start must be len(..)-1 or <index>-1 (strictly earlier statements)
-                    s0 = unparse(args[0]).replace(' ', '')
-                    if not (s0.endswith('-1')):
-                        chk.violation(D2, rel, f.qualname, unparse(r),
-                                      'a backward scan does not start at the last / the previous index', line=r.lineno,
-                                      witness='IndexError on every call, or a statement is linked to itself')
-                else:
-                    # ascending scans must not appear in the "latest definition" searches
-                    if meth in ('dependencies', '_lookup_last_assignment', 'find_assignment_index'):
-                        chk.violation(D2, rel, f.qualname, unparse(r),
-                                      'the search for the defining statement runs forwards (finds the first, not the '
-                                      'latest definition)', line=r.lineno,
-                                      witness='X = 1; X = X + THETA; Y = X : dependencies(X) start from the first '
-                                              'definition and miss THETA')
-            for r in rev:
-                chk.instance(D2, f'{meth}: for ... in {unparse(r)}')
+            sc = scan(it)
+            if sc is None:
+                continue
+            chk.instance(D2, f'{meth}: for ... in {unparse(it)} ({sc.direction}, first {sc.first}, last {sc.last})')
+            if sc.direction == 'desc':
+                if not sc.reaches_zero():
+                    chk.violation(D2, rel, f.qualname, unparse(it),
+                                  'a backward scan over statement indices stops before index 0', line=it.lineno,
+                                  witness='a statement list whose first statement defines the symbol: it is not '
+                                          'found / not linked, so its dependencies are missing from the answer')
+                # start must be the last index (len(..) - 1) or the previous one (<index> - 1): strictly earlier statements
+                if not sc.whole and not (sc.first or '').replace(' ', '').endswith('-1'):
+                    chk.violation(D2, rel, f.qualname, unparse(it),
+                                  'a backward scan does not start at the last / the previous index', line=it.lineno,
+                                  witness='IndexError on every call, or a statement is linked to itself')
+            else:
+                # ascending scans must not appear in the "latest definition" searches
+                if meth in ('dependencies', '_lookup_last_assignment', 'find_assignment_index'):
+                    chk.violation(D2, rel, f.qualname, unparse(it),
+                                  'the search for the defining statement runs forwards (finds the first, not the '
+                                  'latest definition)', line=it.lineno,
+                                  witness='X = 1; X = X + THETA; Y = X : dependencies(X) start from the first '
+                                          'definition and miss THETA')
         if meth == 'full_expression':
             loops = [n for n in walk_no_nested(f.node) if isinstance(n, ast.For)]
-            if not loops or not any(isinstance(c_, ast.Call) and dotted(c_.func) == 'reversed'
-                                    for lp in loops for c_ in ast.walk(lp.iter)) and not any(
-                    isinstance(c_, ast.Call) and dotted(c_.func) == 'range' and len(c_.args) == 3
-                    for lp in loops for c_ in ast.walk(lp.iter)):
+            if not loops or not any((sc_ := scan(lp.iter)) is not None and sc_.direction == 'desc' for lp in loops):
                 chk.violation(D2, rel, f.qualname, 'forward substitution loop',
                               'full_expression substitutes definitions in forward order', line=f.node.lineno,
                               witness='A = THETA; B = A; full_expression(B) returns A instead of THETA')
@@ -179,16 +172,18 @@ def run(chk, repo, tier):
         raise AnalysisError('Statements._create_dependency_graph not found')
     src = unparse(g.node)
     edge_calls = [c_ for c_ in calls_in(g.node) if isinstance(c_.func, ast.Attribute) and c_.func.attr == 'add_edge']
-    tests = [n.test for n in walk_no_nested(g.node) if isinstance(n, ast.If)]
+    # the two membership tests, wherever they are evaluated (in the `if` itself or into a local that the `if` reads)
+    exprs = [n.test for n in walk_no_nested(g.node) if isinstance(n, ast.If)] + \
+        [n.value for n in walk_no_nested(g.node) if isinstance(n, ast.Assign)]
     sym_test = any(isinstance(t, ast.Compare) and isinstance(t.ops[0], ast.In) and unparse(t.left).endswith('.symbol')
-                   for t in tests)
+                   for e_ in exprs for t in ast.walk(e_))
     amt_test = any('amounts' in unparse(x) for x in ast.walk(g.node) if isinstance(x, ast.Attribute)) and \
-        any('isdisjoint' in unparse(t) or 'amts' in unparse(t) or '&' in unparse(t) for t in tests)
+        any('isdisjoint' in unparse(t) or '&' in unparse(t) for t in exprs)
     uses_rhs = any(isinstance(x, ast.Attribute) and x.attr == 'rhs_symbols' for x in ast.walk(g.node))
     chk.instance(D3, f'_create_dependency_graph: {len(edge_calls)} add_edge, symbol-in-rhs test={sym_test}, '
                      f'amounts test={amt_test}, uses rhs_symbols={uses_rhs}')
     chk.instance(D3, 'edge direction (user -> definition)')
-    if len(edge_calls) < 2 or not sym_test or not amt_test or not uses_rhs:
+    if len(edge_calls) < 1 or not sym_test or not amt_test or not uses_rhs:
         chk.violation(D3, rel, g.qualname, 'dependency edges',
                       'the dependency graph no longer links users to assignments (lhs symbol in rhs_symbols) and to the '
                       'ODE system (amounts)', line=g.node.lineno,
@@ -329,26 +324,30 @@ def run(chk, repo, tier):
             continue
         for L in [x for x in walk_no_nested(f.node) if isinstance(x, ast.For)]:
             it = L.iter
-            if not (isinstance(it, ast.Call) and isinstance(it.func, ast.Attribute) and it.func.attr == 'copy'
-                    and isinstance(it.func.value, ast.Name)):
+            # the loop runs once over a fixed collection (a copy of the set it grows, or the seed set of another set)
+            over_copy = isinstance(it, ast.Call) and isinstance(it.func, ast.Attribute) and it.func.attr == 'copy' \
+                and isinstance(it.func.value, ast.Name)
+            if not over_copy and not isinstance(it, ast.Name):
                 continue
-            sv = it.func.value.id
             for st_ in L.body:
                 for n in ast.walk(st_):
-                    grow = None
-                    if isinstance(n, ast.AugAssign) and isinstance(n.op, ast.BitOr) and isinstance(n.target, ast.Name) \
-                            and n.target.id == sv:
-                        grow = n.value
+                    grow = sv = None
+                    if isinstance(n, ast.AugAssign) and isinstance(n.op, ast.BitOr) and isinstance(n.target, ast.Name):
+                        grow, sv = n.value, n.target.id
                     elif isinstance(n, ast.Call) and isinstance(n.func, ast.Attribute) and n.func.attr == 'update' \
-                            and isinstance(n.func.value, ast.Name) and n.func.value.id == sv and n.args:
-                        grow = n.args[0]
+                            and isinstance(n.func.value, ast.Name) and n.args:
+                        grow, sv = n.args[0], n.func.value.id
                     if grow is None:
+                        continue
+                    if over_copy and sv != it.func.value.id:
                         continue
                     apis = {c.func.attr if isinstance(c.func, ast.Attribute) else getattr(c.func, 'id', '')
                             for c in ast.walk(grow) if isinstance(c, ast.Call)}
                     apis |= {a.attr for a in ast.walk(grow) if isinstance(a, ast.Attribute)}
+                    if not over_copy and not apis & (TRANSITIVE | ONE_STEP):
+                        continue
                     trans, one = apis & TRANSITIVE, apis & ONE_STEP
-                    chk.instance(D6, f'{f.qualname}: for _ in {sv}.copy(): {sv} |= {unparse(grow)[:50]} '
+                    chk.instance(D6, f'{f.qualname}: for _ in {unparse(it)}: {sv} |= {unparse(grow)[:50]} '
                                      f'(transitive {sorted(trans)}, one-step {sorted(one)})')
                     if one and not trans:
                         chk.violation(D6, f.module.rel, f.qualname, f'{sv} |= {unparse(grow)}',
@@ -528,8 +527,9 @@ def closed_protection_sets(chk, rule, repo):
             prot.append((n.value.right.id, n))
     if len(prot) < 2:
         raise AnalysisError(f'protecting sets of remove_symbol_definitions not recognised ({[p[0] for p in prot]})')
-    for name, site in prot:
-        apis = set()
+    def built_with(name, seen):
+        # attribute / function names used in building `name`, through the locals it is built from (x = y; y |= dfs(...))
+        out = set()
         for n in ast.walk(f.node):
             tgt = None
             if isinstance(n, ast.Assign) and any(isinstance(t, ast.Name) and t.id == name for t in n.targets):
@@ -537,8 +537,15 @@ def closed_protection_sets(chk, rule, repo):
             elif isinstance(n, ast.AugAssign) and isinstance(n.target, ast.Name) and n.target.id == name:
                 tgt = n.value
             if tgt is not None:
-                apis |= {a.attr for a in ast.walk(tgt) if isinstance(a, ast.Attribute)} | \
-                        {a.id for a in ast.walk(tgt) if isinstance(a, ast.Name)}
+                out |= {a.attr for a in ast.walk(tgt) if isinstance(a, ast.Attribute)}
+                for a in ast.walk(tgt):
+                    if isinstance(a, ast.Name):
+                        out.add(a.id)
+                        if a.id not in seen and a.id != name:
+                            out |= built_with(a.id, seen | {name, a.id})
+        return out
+    for name, site in prot:
+        apis = built_with(name, {name})
         ok = bool(apis & TRANSITIVE_APIS)
         chk.instance(rule, f'remove_symbol_definitions: `{unparse(site)[:50]}`: `{name}` built with {sorted(apis & TRANSITIVE_APIS)}')
         if not ok:
